@@ -142,7 +142,7 @@ def gen_explicit(loader, check, replay_on=True, tier="quick"):
     digits = ["0", "1", "2", "3"]
     nums = digits + [a + b for a in digits for b in digits]
     if tier == "quick":
-        nums1, nums2 = ["0", "1", "3", "13", "31"], [None, "0", "12", "30"]
+        nums1, nums2 = ["0", "1", "3", "11", "13", "22", "31"], [None, "0", "12", "30"]
     else:
         nums1, nums2 = nums, [None] + nums
     for letter in "RCPVQMGS":
